@@ -24,12 +24,12 @@ def _pstr(s):
     return b + (b"\0" if len(b) & 1 else b"")
 
 
-def aiff_inst_mark(ch=1, frames=64, aifc=False):
+def aiff_inst_mark(ch=1, frames=64, aifc=False, nmark=3):
     data = bytes((i * 7 + 3) & 0xFF for i in range(frames * ch * 2))
     comm = struct.pack(">hIh", ch, frames, 16) + _ext80(44100)
     if aifc:
         comm += b"NONE" + _pstr(b"not compressed")
-    marks = struct.pack(">H", 3) + b"".join(struct.pack(">hI", i + 1, 10 * (i + 1)) + _pstr(b"mk%d" % i) for i in range(3))
+    marks = struct.pack(">H", nmark) + b"".join(struct.pack(">hI", i + 1, (10 * (i + 1)) % frames) + _pstr(b"mk%d" % i) for i in range(nmark))
     inst = struct.pack(">bbbbbbh", 60, 0, 0, 127, 1, 127, 0) + struct.pack(">hhh", 1, 1, 2) + struct.pack(">hhh", 0, 2, 3)
     comt = struct.pack(">H", 1) + struct.pack(">IhH", 0, 1, 5) + b"hello\0"
     body = (_ck(b"FVER", struct.pack(">I", 0xA2805140)) if aifc else b"") + _ck(b"COMM", comm) + _ck(b"INST", inst) + _ck(b"MARK", marks) \
@@ -39,13 +39,13 @@ def aiff_inst_mark(ch=1, frames=64, aifc=False):
     return b"FORM" + struct.pack(">I", len(form)) + form
 
 
-def wav_smpl_cue(ch=1, frames=64, extensible=False):
+def wav_smpl_cue(ch=1, frames=64, extensible=False, ncue=2):
     data = bytes((i * 5 + 1) & 0xFF for i in range(frames * ch * 2))
     if extensible:
         fmt = struct.pack("<HHIIHHHHI", 0xFFFE, ch, 44100, 44100 * ch * 2, ch * 2, 16, 22, 16, 3 if ch == 2 else 4) + b"\x01\x00\x00\x00\x00\x00\x10\x00\x80\x00\x00\xaa\x00\x38\x9b\x71"
     else:
         fmt = struct.pack("<HHIIHH", 1, ch, 44100, 44100 * ch * 2, ch * 2, 16)
-    cue = struct.pack("<I", 2) + b"".join(struct.pack("<II4sIII", i + 1, 10 * i, b"data", 0, 0, 10 * i) for i in range(2))
+    cue = struct.pack("<I", ncue) + b"".join(struct.pack("<II4sIII", i + 1, (10 * i) % frames, b"data", 0, 0, (10 * i) % frames) for i in range(ncue))
     adtl = b"adtl" + _ck(b"labl", struct.pack("<I", 1) + b"first\0", big=False) + _ck(b"note", struct.pack("<I", 2) + b"second note\0", big=False) \
         + _ck(b"ltxt", struct.pack("<II4sHHHH", 1, 20, b"rgn ", 0, 0, 0, 0) + b"text\0", big=False)
     smpl = struct.pack("<9I", 0, 0, 22675, 60, 0, 0, 0, 2, 0) + b"".join(struct.pack("<6I", i, 0, 5 * i, 5 * i + 20, 0, 0) for i in range(2))
@@ -72,4 +72,9 @@ def crafted():
     out.append((0x20002, 1, a, a.index(b"SSND") + 16))
     w = wav_smpl_cue(2, extensible=True)
     out.append((0x130002, 2, w, w.index(b"data") + 8))
+    # more cue points / markers than the fixed-size SF_CUES a caller usually passes (100)
+    w = wav_smpl_cue(1, ncue=120)
+    out.append((0x10002, 1, w, 120))
+    a = aiff_inst_mark(1, nmark=120)
+    out.append((0x20002, 1, a, 120))
     return out
